@@ -79,16 +79,21 @@ PROPS = {
                  'nested borrowing from a borrowed share is covered by the machine correspondence and the assert in borrow(), not by a theorem'],
     ),
     'C01': dict(
-        gen=['Kernel', 'Timing'], props=['C01', 'Skeletons'], model=['Prim/KernelModel', 'Machine/Kernel', 'Machine/Run', 'Judge/Judges'], harness='c01',
+        gen=['Kernel', 'Timing'], props=['C01', 'Machine', 'Skeletons'],
+        model=['Prim/KernelModel', 'Machine/Kernel', 'Machine/Run', 'Judge/Judges', 'Lemmas/PushBucket', 'Lemmas/KView', 'Lemmas/KStepFrames', 'Lemmas/KStep'],
+        harness='c01',
         trusted_base=KERNEL_TB + MACHINE_TB + [
             'shape templates (exact AST match, else broken obligation): Loop.schedule/_run_events/_run_coroutine/__init__/run, Activation.__bool__, '
             'HQWaitQueue/SDWaitQueue push/pop, StateHandler.assign, usim.run',
             'heapq and sortedcontainers by contract (pop = smallest key)',
         ],
-        assumptions=['Layer-K theorems hold for every activity behaviour that respects the assertion of Loop.schedule; that every primitive '
-                     'respects it is checked by the exact trace correspondence (debug mode), not proved',
+        assumptions=['Layer-K theorems hold for every activity behaviour that respects the assertion of Loop.schedule; Props/Machine.lean proves '
+                     'that every statement, frame and primitive of the whole machine respects it (assertions on) and touches clock, wait queue '
+                     'and saved kernels only through Loop.schedule, run() and the loop: the clock theorems hold for every program and every '
+                     'number of machine steps',
                      'exact rational time; float absorption (t + d == t) is outside the theorems'],
-        partial=['schedule_guard_respected for all primitive frames is not proved (tied by correspondence)'],
+        partial=['"a timed wait resumes exactly at its date" is proved per primitive (delay_wakeup_key, advance_runs_bucket_of_new_time) and '
+                 'checked on whole programs by the trace correspondence; it is not lifted to a whole-machine theorem'],
     ),
     'C02': dict(
         gen=['Kernel', 'Timing', 'Tracked', 'Lock'], props=['C02', 'C01', 'Skeletons'],
@@ -102,7 +107,8 @@ PROPS = {
         partial=['"independent of process / hash seed / memory layout" is not a theorem (runtime fact, multi-configuration differential only)'],
     ),
     'C15': dict(
-        gen=['Kernel'], props=['C15', 'C01'], model=['Prim/KernelModel', 'Machine/Run', 'Judge/Judges'], harness='c15',
+        gen=['Kernel'], props=['C15', 'C01', 'Machine'],
+        model=['Prim/KernelModel', 'Machine/Run', 'Judge/Judges', 'Lemmas/PushBucket', 'Lemmas/KView', 'Lemmas/KStepFrames', 'Lemmas/KStep'], harness='c15',
         trusted_base=KERNEL_TB + MACHINE_TB + [
             'shape templates: Loop.run/_run_events/_run_coroutine/__init__, StateHandler.assign, usim.run',
             "CPython's threading.local and the GIL are assumed: thread isolation is a runtime fact, checked by running generated "
